@@ -395,6 +395,10 @@ func (ri *reflectInspector) recordArgReflected(val ssa.Value, visited map[ssa.Va
 		return ri.recordArgReflected(val.X, visited)
 	case *ssa.MakeInterface:
 		return ri.recordArgReflected(val.X, visited)
+	case *ssa.ChangeInterface:
+		// A value of one interface type passed on as another, e.g. an
+		// interface-typed parameter handed to a func(any).
+		return ri.recordArgReflected(val.X, visited)
 	case *ssa.UnOp:
 		for _, ref := range *val.Referrers() {
 			if idx, ok := ref.(ssa.Value); ok {
